@@ -49,6 +49,8 @@ def sizes_ok(blocks, spec, n):
             where[v] = len(b)
     if spec is None:
         return True
+    if spec[0] == "fresh-ints":
+        return all(len(b) == spec[1] for b in blocks)
     if spec[0] == "const":
         return all(len(b) == spec[1] for b in blocks)
     if spec[0] == "var":
@@ -73,11 +75,13 @@ def build_plain(case):
         gs = spec[1]
     elif spec[0] == "var":
         gs = s.int_var(1, n)
+    elif spec[0] == "fresh-ints":
+        gs = [int(str(spec[1])) for _ in range(n)]  # equal values, distinct objects
     else:
         gs = list(spec[1])
     form = case["form"]
     if form == "graph":
-        g = gcheck.make_graph(n, case["edges"])
+        g = gcheck.make_graph(n, case["edges"], case.get("grown"))
         if case.get("as_array") and gs is not None and isinstance(gs, list):
             # IntArray1D has no holes: unspecified entries become free variables
             arr = []
@@ -146,7 +150,7 @@ def run_plain(part, case):
         exp = all(graphref.induced_connected(n, edges, b) for b in blocks) and sizes_ok(blocks, spec, n)
         gcheck.judge(part, key, case, [sorted(b) for b in blocks], exp, s, partition_fixes(gid, blocks) + extra)
     if "partitions" in case:
-        part.add("scale", (n, repr(spec)))
+        part.add("scale", (n, repr(spec)[:40]))
     else:
         part.add("graphs", (n, tuple(edges)))
 
@@ -167,10 +171,12 @@ def build_borders(case):
     if case["prim"] != "default":
         kw["use_graph_primitive"] = case["prim"]
     if case["form"] == "graph":
-        g = gcheck.make_graph(n, case["edges"])
+        g = gcheck.make_graph(n, case["edges"], case.get("grown"))
         border = s.bool_array(len(case["edges"]))
         if spec is None:
             gs = None
+        elif spec[0] == "fresh-ints":
+            gs = [int(str(spec[1])) for _ in range(n)]
         else:
             gs = list(spec[1])
         graph.division_connected_variable_groups_with_borders(
@@ -202,7 +208,7 @@ def run_borders(part, case, prange=None):
     n, edges = case["n"], case["edges"]
     spec = case["spec"]
     prim = case["prim"] is True or (case["prim"] == "default" and case["cfg"])
-    key = "borders[%s,%s,%s]" % (case["form"], "native" if prim else "aux", "absent" if spec is None else "list")
+    key = "borders[%s,%s,%s]" % (case["form"], "native" if prim else "aux", "absent" if spec is None else ("list" if spec[0] == "list" else spec[0]))
     with gcheck.GraphConfig(use_graph_division_primitive=bool(case["cfg"])):
         try:
             s, bvars, extra = build_borders(case)
@@ -213,12 +219,16 @@ def run_borders(part, case, prange=None):
         part.count("evaluations")
         if nat != (1 if prim else 0):
             part.violation(key + ":encoding-choice", case, {"native_operators": nat})
-        sizes = spec[1] if spec is not None else [None] * n
-        for pattern in gcheck.patterns(len(edges), prange):
+        sizes = ([spec[1]] * n if spec[0] == "fresh-ints" else spec[1]) if spec is not None else [None] * n
+        pats = [tuple(bool(b) for b in pt) for pt in case["patterns"]] if "patterns" in case else gcheck.patterns(len(edges), prange)
+        for pattern in pats:
             exp = graphref.division_ok(n, edges, sizes, pattern)
             gcheck.judge(part, key, case, pattern, exp, s, [gcheck.fix(v, b) for v, b in zip(bvars, pattern)] + extra)
-    part.add("graphs", (n, tuple(edges)))
-    part.add("border_graphs", (n, tuple(edges)))
+    if "patterns" in case:
+        part.add("scale", (n, "borders"))
+    else:
+        part.add("graphs", (n, tuple(edges)))
+        part.add("border_graphs", (n, tuple(edges)))
 
 
 def run_case(part, case, prange=None):
@@ -310,6 +320,14 @@ def scale_cases(tier):
             if n >= 15 and spec is not None and spec[0] == "list":
                 continue  # a single z3 query of the size encoding takes ~1 min there
             out.append({"variant": "plain", "form": "grid", "shape": [h, w], "n": n, "spec": spec, "partitions": parts})
+    # large family: sizes >= 257 given as distinct int objects (as a parser would produce them), one long block
+    for n in ((258,) if tier == "quick" else (257, 258, 300)):
+        path = [(i, i + 1) for i in range(n - 1)]
+        one = [list(range(n))]
+        two = [list(range(n // 2)), list(range(n // 2, n))]
+        out.append({"variant": "plain", "form": "graph", "n": n, "edges": path, "spec": ("fresh-ints", n), "partitions": [one, two]})
+        out.append({"variant": "borders", "form": "graph", "n": n, "edges": path, "spec": ("fresh-ints", n), "prim": False, "cfg": False,
+                    "patterns": [[False] * (n - 1), [i == n // 2 for i in range(n - 1)]]})
     return out
 
 
@@ -324,6 +342,11 @@ def prepare(tier):
     global _CASES
     base_cases = cases_for(tier)
     used = [dict(c, used=True) for c in base_cases[:: (7 if tier == "quick" else 3)] if _small(c)]
+    # Graph objects with a history: some edges added only after the object has been used by other constraints
+    for c in base_cases[:: (5 if tier == "quick" else 2)]:
+        if "edges" in c and "shape" not in c and 2 <= len(c["edges"]) <= 5 and c.get("n", 9) <= 4:
+            used.append(dict(c, grown=1))
+            used.append(dict(c, grown=len(c["edges"]) - 1))
     _CASES = base_cases + used + scale_cases(tier)
     return _CASES
 
@@ -334,6 +357,8 @@ _BELL = [1, 1, 2, 5, 15, 52, 203, 877, 4140]
 def size_of(c):
     if "partitions" in c:
         return 30 * len(c["partitions"])
+    if "patterns" in c:
+        return 60 * len(c["patterns"])
     if c["variant"] == "plain":
         return _BELL[c["n"]]
     return 1 << len(c["edges"])
